@@ -19,6 +19,8 @@ const BUF: u64 = 0x8000; // data area: fd slots at +0 (pipe 0) / +0x20 (pipe 1),
 const BUF_LEN: u64 = 0x200;
 const IO: u64 = BUF + 0x100;
 const USER_MARK: u64 = 0x7777_0000;
+const BIGIO: u64 = 0x10_0000;
+const BIGIO_LEN: u64 = 0x2_0000;
 
 thread_local! {
     static USER_LOG: RefCell<Vec<(u64, u64)>> = RefCell::new(vec![]);
@@ -51,6 +53,9 @@ pub struct M {
     pub counter: u8,
     pub next_fd: u64,
     pub collide: bool,
+    /// the `large-transfers` machine (seed C14j: a queue that silently stops growing at 64 KiB):
+    /// one pipe, writes of tens of thousands of bytes, reads larger than anything queued
+    pub big: bool,
 }
 
 pub struct C14 {
@@ -98,11 +103,14 @@ impl Spec for C14 {
 
     fn inits(&self) -> Vec<(String, Axecutor, M)> {
         let mut out = vec![];
-        for (label, collide) in [("distinct-descriptors", false), ("colliding-descriptors", true)] {
+        for (label, collide, big) in [("distinct-descriptors", false, false), ("colliding-descriptors", true, false), ("large-transfers", false, true)] {
             let mut code = vec![0x90u8; 0x20];
             code[0..2].copy_from_slice(&[0x0F, 0x05]);
             let mut ax = Axecutor::new(&code, CODE_AT, CODE_AT).unwrap();
             ax.mem_init_zero(BUF, BUF_LEN).unwrap();
+            if big {
+                ax.mem_init_zero(BIGIO, BIGIO_LEN).unwrap();
+            }
             ax.handle_syscalls(vec![Syscall::Pipe]).unwrap();
             // a user hook registered after the built-in ones logs what reaches it
             let user: &'static ax_x86::state::hooks::RustCallbackFunction = Box::leak(Box::new(|ax: &mut Axecutor, _m: SupportedMnemonic| {
@@ -124,14 +132,32 @@ impl Spec for C14 {
                     counter: 1,
                     next_fd: 2000,
                     collide,
+                    big,
                 },
             ));
         }
         out
     }
 
-    fn ops(&self, m: &M, _depth: usize) -> Vec<Op> {
+    fn ops(&self, m: &M, depth: usize) -> Vec<Op> {
         let mut v = vec![];
+        if m.big {
+            // histories of at most 4 operations: pipe, then writes / reads around 64 KiB
+            if depth >= 4 {
+                return v;
+            }
+            if m.pipes.is_empty() {
+                v.push(Op::Pipe);
+                return v;
+            }
+            for n in [40_000u64, 25_537] {
+                v.push(Op::Write { fd: Fd::W(0), n });
+            }
+            for n in [7u64, 65_536, 100_000] {
+                v.push(Op::Read { fd: Fd::R(0), n });
+            }
+            return v;
+        }
         if m.pipes.len() < 2 {
             v.push(Op::Pipe);
         }
@@ -255,11 +281,12 @@ impl Spec for C14 {
                 };
                 // fresh counter bytes in the guest buffer
                 let data: Vec<u8> = (0..*n).map(|i| m.counter.wrapping_add(i as u8)).collect();
-                ax.mem_write_bytes(IO, &[0xEE; 16]).unwrap();
+                let io = if m.big { BIGIO } else { IO };
+                ax.mem_write_bytes(io, &[0xEE; 16]).unwrap();
                 if !data.is_empty() {
-                    ax.mem_write_bytes(IO, &data).unwrap();
+                    ax.mem_write_bytes(io, &data).unwrap();
                 }
-                let out = syscall(ax, 1, fdn, IO, *n);
+                let out = syscall(ax, 1, fdn, io, *n);
                 let log = USER_LOG.with(|l| l.borrow().clone());
                 let rax = ax.reg_read_64(SR::RAX).unwrap();
                 let role = match fd {
@@ -300,8 +327,9 @@ impl Spec for C14 {
                     Some(x) => x,
                     None => return Ok(None),
                 };
-                ax.mem_write_bytes(IO, &[0xEE; 16]).unwrap();
-                let out = syscall(ax, 0, fdn, IO, *n);
+                let io = if m.big { BIGIO } else { IO };
+                ax.mem_write_bytes(io, &[0xEE; 16]).unwrap();
+                let out = syscall(ax, 0, fdn, io, *n);
                 let log = USER_LOG.with(|l| l.borrow().clone());
                 let rax = ax.reg_read_64(SR::RAX).unwrap();
                 let role = match fd {
@@ -327,13 +355,16 @@ impl Spec for C14 {
                         if rax != want_k {
                             return Err(div(format!("read|wrong-count|{st}"), format!("read({fdn}, buf, {n}) returned {rax:#x}; {avail} bytes were queued")));
                         }
-                        let got = ax.mem_read_bytes(IO, 16).unwrap();
-                        let mut want = vec![0xEEu8; 16];
+                        let cmp_len = (want_k as usize).max(16);
+                        let got = ax.mem_read_bytes(io, cmp_len as u64).unwrap();
+                        let mut want = vec![0xEEu8; cmp_len];
                         for i in 0..want_k as usize {
                             want[i] = m2.pipes[*k].2.pop_front().unwrap();
                         }
                         if got != want {
-                            return Err(div(format!("read|wrong-bytes|{st}"), format!("read({fdn}, buf, {n}) left {got:02x?} in the buffer, FIFO model {want:02x?}")));
+                            let d = (0..cmp_len).find(|&i| got[i] != want[i]).unwrap();
+                            let hi = (d + 16).min(cmp_len);
+                            return Err(div(format!("read|wrong-bytes|{st}"), format!("read({fdn}, buf, {n}) differs from the FIFO model from byte {d}: buffer {:02x?}, model {:02x?}", &got[d..hi], &want[d..hi])));
                         }
                     }
                     Fd::Raw(_) => {
@@ -377,7 +408,7 @@ pub fn run(tier: Tier) -> i32 {
     }
     let depth = std::env::var("VERIF_DEPTH").ok().and_then(|s| s.parse().ok()).unwrap_or(if tier.is_thorough() { 10 } else { 8 });
     let out = run_stexp(Arc::clone(&spec), depth, crate::common::ncpu(), 1 << 30, if tier.is_thorough() { 1500 } else { 45 });
-    st_evidence(&mut run, &out, depth, "guest syscalls pipe() (<= 2 pipes), write(fd, n in {0,1,2,3,5}) of fresh counter bytes, read(fd, n in {0,1,2,4,8}); fd in both ends of both pipes and {0, 1, 5, 1023}; read/write on descriptors 1 and 1023 with an unmapped buffer; a user hook registered after the built-in handler logs what reaches it; descriptor seam: distinct and forced-colliding answers");
+    st_evidence(&mut run, &out, depth, "guest syscalls pipe() (<= 2 pipes), write(fd, n in {0,1,2,3,5}) of fresh counter bytes, read(fd, n in {0,1,2,4,8}); fd in both ends of both pipes and {0, 1, 5, 1023}; read/write on descriptors 1 and 1023 with an unmapped buffer; a user hook registered after the built-in handler logs what reaches it; descriptor seam: distinct and forced-colliding answers; a third machine `large-transfers`: every history of <= 4 operations over pipe(), write(40 000 | 25 537 bytes), read(7 | 65 536 | 100 000 bytes) on one pipe, whole buffers compared");
     run.guard("states", out.states >= 200, format!("{} states", out.states));
     run.assume("wrong-end operations and descriptor collisions: crash-freedom only; where pipe() stores the descriptors in guest memory is not checked");
     let spec2 = Arc::clone(&spec);
